@@ -13,6 +13,8 @@
 //!             Timeout, and monotonic elapsed >= requested
 //!   try       try_accept / try_connect: no waiting syscall, socket calls only on non-blocking
 //!             descriptors (trace property from the E2 log)
+//!   inprogress continuing a TCP connection left in progress by try_connect (try_connect again /
+//!             connect_blocking) and plain blocking connect against a full accept queue
 //!   order     orders of connect/accept/close, k connects before the first accept, libc
 //!             listeners with backlog 0..2, accept with nothing pending
 //!   fdpass    SCM_RIGHTS with 0..32 descriptors into control buffers of every size class that
@@ -31,7 +33,7 @@ use std::cell::Cell;
 use std::sync::atomic::Ordering;
 
 use serde_json::json;
-use vh::runner::Ctx;
+use vh::runner::{CaseResult, Ctx};
 
 pub fn run(ctx: &Ctx) {
     common::WORKER.store(ctx.worker, Ordering::Relaxed);
@@ -39,65 +41,85 @@ pub fn run(ctx: &Ctx) {
     unsafe {
         libc::signal(libc::SIGPIPE, libc::SIG_IGN);
     }
-    let fds0 = common::count_fds();
-    let max_leak = Cell::new(0i64);
-    let track = |before: usize| {
-        let d = common::count_fds() as i64 - before as i64;
-        if d > max_leak.get() {
-            max_leak.set(d);
+    let max_delta = Cell::new(0i64);
+    let th = ctx.thorough();
+    // development aids: C16_ONLY=stream,order restricts the run to the named sub-checks,
+    // C16_TIMING=1 prints the elapsed time after each sub-check
+    let only: Option<Vec<String>> = std::env::var("C16_ONLY").ok().map(|v| v.split(',').map(|x| x.to_string()).collect());
+    let on = |name: &str| only.as_ref().map(|o| o.iter().any(|x| x == name)).unwrap_or(true);
+    let t_start = std::time::Instant::now();
+    let lap = |name: &str| {
+        if std::env::var("C16_TIMING").is_ok() {
+            eprintln!("[C16 timing] worker {} after {name}: {:?}", ctx.worker, t_start.elapsed());
         }
     };
-    let th = ctx.thorough();
+    // descriptor hygiene of the harness: open descriptors before/after every case (statistic)
+    fn tracked<'a, C: std::fmt::Debug>(max_delta: &'a Cell<i64>, f: impl Fn(&C) -> CaseResult + 'a) -> impl Fn(&C) -> CaseResult + 'a {
+        move |c| {
+            let before = common::count_fds() as i64;
+            let t0 = std::time::Instant::now();
+            let r = f(c);
+            if t0.elapsed().as_millis() > 100 && std::env::var("C16_TIMING").is_ok() {
+                eprintln!("[C16 timing] slow case {:?}: {:?}", t0.elapsed(), c);
+            }
+            let d = common::count_fds() as i64 - before;
+            if d > max_delta.get() {
+                max_delta.set(d);
+            }
+            r
+        }
+    }
 
-    ctx.run_prop("stream", ctx.cases(220, 6000), stream::stream_strategy(th, false), |c| {
-        let b = common::count_fds();
-        let r = stream::run_stream(c);
-        track(b);
-        r
-    });
-    ctx.run_prop("eintr", ctx.cases(120, 4000), stream::stream_strategy(th, true), |c| {
-        let b = common::count_fds();
-        let r = stream::run_stream(c);
-        track(b);
-        r
-    });
-    ctx.run_prop("timeouts", ctx.cases(60, 1200), timeouts::timeout_strategy(), |c| {
-        let b = common::count_fds();
-        let r = timeouts::run_timeout(c);
-        track(b);
-        r
-    });
-    ctx.run_prop("try", ctx.cases(150, 5000), trycalls::try_strategy(), |c| {
-        let b = common::count_fds();
-        let r = trycalls::run_try(c);
-        track(b);
-        r
-    });
-    ctx.run_prop("order", ctx.cases(150, 5000), order::order_strategy(), |c| {
-        let b = common::count_fds();
-        let r = order::run_order(c);
-        track(b);
-        r
-    });
+    if on("stream") {
+        ctx.run_prop("stream", ctx.cases(220, 6000), stream::stream_strategy(th, false), tracked(&max_delta, stream::run_stream));
+        lap("stream");
+    }
+    if on("eintr") {
+        ctx.run_prop("eintr", ctx.cases(120, 4000), stream::stream_strategy(th, true), tracked(&max_delta, stream::run_stream));
+        lap("eintr");
+    }
+    if on("timeouts") {
+        ctx.run_prop("timeouts", ctx.cases(60, 1200), timeouts::timeout_strategy(), tracked(&max_delta, timeouts::run_timeout));
+        lap("timeouts");
+    }
+    if on("try") {
+        ctx.run_prop("try", ctx.cases(150, 5000), trycalls::try_strategy(), tracked(&max_delta, trycalls::run_try));
+        lap("try");
+    }
+    if on("inprogress") {
+        // up to ~1 s per case (SYN retransmission) when the listener's queue is full
+        ctx.run_prop("inprogress", ctx.cases(8, 120), trycalls::inprogress_strategy(), tracked(&max_delta, trycalls::run_inprogress));
+        lap("inprogress");
+    }
+    if on("order") {
+        ctx.run_prop("order", ctx.cases(150, 5000), order::order_strategy(), tracked(&max_delta, order::run_order));
+        lap("order");
+    }
     // more connects than net.core.somaxconn against a tiny-std listener (it listens with
     // i32::MAX, clamped by the kernel): thorough tier, one worker
-    if (th && ctx.worker == 0) || ctx.is_replay() {
-        let k = order::somaxconn() + 3;
-        let case = order::OrderCase { tcp: false, mode: 2, backlog: 0, flood: k.min(60_000) as u16, steps: vec![order::Step::Accept { delay_us: 0 }, order::Step::Connect { delay_us: 500 }] };
-        let mut lim = libc::rlimit { rlim_cur: 0, rlim_max: 0 };
-        let enough = unsafe { libc::getrlimit(libc::RLIMIT_NOFILE, &mut lim) == 0 && (lim.rlim_cur as usize) > 2 * k + 200 };
+    if on("order-flood") {
         if ctx.is_replay() {
             if let Some(c) = ctx.replay_case::<order::OrderCase>("order-flood") {
                 ctx.run_one("order-flood", &c, || order::run_order(&c));
             }
-        } else if enough && k < 30_000 {
-            ctx.run_one("order-flood", &case, || order::run_order(&case));
+        } else if th && ctx.worker == 0 {
+            let k = order::somaxconn() + 3;
+            let case = order::OrderCase { tcp: false, mode: 2, backlog: 0, flood: k.min(60_000) as u16, steps: vec![order::Step::Accept { delay_us: 0 }, order::Step::Connect { delay_us: 500 }] };
+            let mut lim = libc::rlimit { rlim_cur: 0, rlim_max: 0 };
+            let enough = unsafe { libc::getrlimit(libc::RLIMIT_NOFILE, &mut lim) == 0 && (lim.rlim_cur as usize) > 2 * k + 200 };
+            if enough && k < 30_000 {
+                ctx.run_one("order-flood", &case, || order::run_order(&case));
+            }
+            lap("order-flood");
         }
     }
-    ctx.extra("max_fd_delta_per_case_before_fdpass", json!(max_leak.get()));
-    let _ = fds0;
+    ctx.extra("max_fd_delta_per_case", json!(max_delta.get()));
 
     // LAST: a fault inside the control-message iterator kills the process that runs the case
     // body (a forked child by default, the worker itself with C16_FDPASS_INPROCESS=1)
-    ctx.run_prop("fdpass", ctx.cases(400, 20_000), fdpass::fd_strategy(), |c| fdpass::run_fdpass(c));
+    if on("fdpass") {
+        ctx.run_prop("fdpass", ctx.cases(400, 20_000), fdpass::fd_strategy(), fdpass::run_fdpass);
+        fdpass::remove_pool();
+        lap("fdpass");
+    }
 }
